@@ -138,6 +138,13 @@ func genBoxProps(c *Ctx, which string) {
 		pf := genProgFile(c.R, 1+c.R.Intn(3), 30)
 		checkWholeFile(c, which, pf.bytes, fmt.Sprintf("generated-progressive#%d", it))
 	}
+	// API-built fragments / media segments (histories of sample additions, both encoders, optimisation on/off,
+	// Info in between, encode twice, grow and encode again)
+	if which != "C01" {
+		for it := 0; it < c.N(1500, 30000); it++ {
+			checkHistory(c, which, genHistory(c))
+		}
+	}
 }
 
 func fileSummary(d []byte) string {
@@ -254,6 +261,24 @@ func checkWholeFile(c *Ctx, which string, d []byte, name string) {
 		var bs2 bytes.Buffer
 		if p := safe(func() { _ = fs.Encode(&bs2) }); p != "" || !bytes.Equal(bs2.Bytes(), bw.Bytes()) {
 			fail("C03", fmt.Sprintf("decoders-reencode-mode%d", mi), "DecodeFile and DecodeFileSR results encode to different bytes", p, "")
+		}
+	}
+	// lazy-mdat decode: same sizes as in-memory decode (C02 at file level, 32- and 64-bit mdat headers)
+	var fl *mp4.File
+	var el error
+	pl := safe(func() { fl, el = mp4.DecodeFile(bytes.NewReader(d), mp4.WithDecodeMode(mp4.DecModeLazyMdat)) })
+	if pl != "" || el != nil {
+		fail("C02", "lazy-decode", "file decodes in memory but not lazily", fmt.Sprintf("%v %s", el, pl), "")
+	} else {
+		fl.FragEncMode = mp4.EncModeBoxTree
+		fr.FragEncMode = mp4.EncModeBoxTree
+		if fl.Size() != fr.Size() || fl.Size() != uint64(len(d)) {
+			fail("C02", "lazy-size", "File.Size() of a lazily decoded file != size of the file", fmt.Sprintf("lazy %d eager %d file %d", fl.Size(), fr.Size(), len(d)), "")
+		}
+		for i := range fl.Children {
+			if i < len(fr.Children) && fl.Children[i].Size() != fr.Children[i].Size() {
+				fail("C02", "lazy-box-size", "a top-level box has different Size() in lazy and in-memory mode", fmt.Sprintf("%s lazy %d eager %d", fl.Children[i].Type(), fl.Children[i].Size(), fr.Children[i].Size()), "")
+			}
 		}
 	}
 	if g1, g2 := groupingOf(fr), groupingOf(fs); g1 != g2 {
